@@ -8,6 +8,9 @@ CONSTANTS
   NReps = {0}
   IndexBySortedId = TRUE
   CutAtN = FALSE
+  Sharing = FALSE
+  ReplaceByKey = TRUE
+  MaxReAdd = 0
   CanonicalFirst = FALSE
 INVARIANTS TypeOK C35_RankSame C35_RankPermutation
 CHECK_DEADLOCK FALSE
